@@ -50,6 +50,10 @@ CHECKS = {
          "deterministic simulation: the real convert-chunks main() run as a simulated process (argparse, exit status, atexit handlers run LIFO by the simulator, or killed before them) from local or simulated-HTTP sources into file / sharded destinations on SimFS; a new simulated process decodes the destination and compares with the source model",
          "Seeded search over source x destination kinds, encodings, widening dtype pairs, sharding triples, --copy-info, multi-scale chunk sizes; relational oracle (destination == source after the documented conversion, source tree hash unchanged, exit status 0). The dependence on the exit handler is pinned by the kill class in thorough. Sampling, not proof.",
          "Trusts SimProc's model of CPython exit semantics (handlers LIFO, their exceptions ignored for the status), SimFS and SimHTTP."),
+ "C19": ("exploration",
+         "deterministic simulation: seeded programs (sequences of the real CLI main() functions with repeated data-writing steps), each command a simulated process with exit handlers on a shared SimFS, versus the all-in-one command; relational oracles over the decoded datasets",
+         "Seeded search over synthetic volumes and option sets; oracles: info and decoded voxels equal between all-in-one and step-by-step, decoded contents unchanged by repeating a step, success exit implies every requested file/chunk exists and decodes. A non-zero exit alone is not judged. Sampling, not proof.",
+         "Trusts SimProc/SimFS; input NIfTI volumes are real files (nibabel) and are not fault-injected; mesh and slice commands are not part of the generated programs."),
 }
 
 def main():
